@@ -202,9 +202,8 @@ def producerKind : String → Option NodeKind
   | "sylvan_and" | "sylvan_or" | "sylvan_xor" | "sylvan_imp" | "sylvan_biimp" | "sylvan_equiv"
   | "sylvan_diff" | "sylvan_ite" | "sylvan_exists" | "sylvan_forall" | "sylvan_and_exists"
   | "sylvan_ithvar" | "sylvan_nithvar" | "sylvan_support" | "sylvan_compose"
-  | "sylvan_restrict" | "sylvan_constrain" | "sylvan_map_add" => some .fresh
-  | "sylvan_not" | "sylvan_low" | "sylvan_high" | "sylvan_true" | "sylvan_false"
-  | "sylvan_map_empty" => some .borrowed
+  | "sylvan_restrict" | "sylvan_constrain" => some .fresh
+  | "sylvan_not" | "sylvan_low" | "sylvan_high" | "sylvan_true" | "sylvan_false" => some .borrowed
   -- BuDDy
   | "bdd_and" | "bdd_or" | "bdd_xor" | "bdd_not" | "bdd_imp" | "bdd_biimp" | "bdd_ite"
   | "bdd_apply" | "bdd_exist" | "bdd_forall" | "bdd_appex" | "bdd_appall" | "bdd_makeset"
